@@ -129,3 +129,53 @@ func allProps(bin, scratch string) []string {
 	}
 	return ps
 }
+
+// cmdSensitivity applies each deliberate breakage of the rewriter's mutation table to the overlay
+// (never to /repo) and requires the quick tier of the matching property to report a violation.
+func cmdSensitivity(args []string) int {
+	scratch, err := os.MkdirTemp(scratchBase(), "kmipverif-")
+	if err != nil {
+		trouble("scratch: %v", err)
+	}
+	defer os.RemoveAll(scratch)
+	instr := filepath.Join(scratch, "instrument")
+	if out, err := run(simDir, goEnv(), goBin, "build", "-o", instr, "./instrument"); err != nil {
+		trouble("building the rewriter failed:\n%s", out)
+	}
+	out, err := run(simDir, goEnv(), instr, "-list-mutations")
+	if err != nil {
+		trouble("listing mutations: %v", err)
+	}
+	want := map[string]bool{}
+	for _, a := range args {
+		want[a] = true
+	}
+	missed := 0
+	total := 0
+	for _, ln := range strings.Split(strings.TrimSpace(out), "\n") {
+		f := strings.Fields(ln)
+		if len(f) != 2 || (len(want) > 0 && !want[f[0]] && !want[f[1]]) {
+			continue
+		}
+		name, prop := f[0], f[1]
+		total++
+		sub, err := os.MkdirTemp(scratch, "m-")
+		if err != nil {
+			trouble("scratch: %v", err)
+		}
+		start := time.Now()
+		code, rules := runPropertyQuiet(prop, name, sub, start)
+		os.RemoveAll(sub)
+		status := "DETECTED"
+		if code != 1 {
+			status = "MISSED"
+			missed++
+		}
+		fmt.Printf("sensitivity: %-26s %s %-8s %s (%.1fs)\n", name, prop, status, strings.Join(rules, ","), time.Since(start).Seconds())
+	}
+	fmt.Printf("sensitivity: %d of %d deliberate breakages detected\n", total-missed, total)
+	if missed > 0 {
+		return 2
+	}
+	return 0
+}
